@@ -138,6 +138,7 @@ func C02(c *vf.Check) {
 		rule:   "every program of F_eff (control-flow family with an effect statement alphabet and effectful yield expressions r.V(id,a)) up to MaxSize x every tape x EVERY truncation length k in 0..MaxCalls as a separate run on a fresh iterator; the observation is the interleaving: recorder entries written during construction (must be none), during each MoveNext (exactly the entries between two yields, in order, including the yielded expression's own), and after the consumer stopped (must be none); non-trivial = run with at least one effect or yield",
 		assume: []string{"'nothing further runs' is observed as: the recorder does not grow after the last call (after runtime.Gosched)"}})
 	c02Expr(c)
+	c02Box(c)
 }
 
 // the expression-shape family is part of C02 (second run)
@@ -145,6 +146,11 @@ func c02Expr(c *vf.Check) {
 	runFam(c, famSpec{id: "C02", fam: "expr", name: "F_expr", sizeQ: "2", sizeT: "3", tapeQ: "2", tapeT: "3", callsQ: 4, callsT: 5,
 		keys: fullKeys, truncations: true,
 		rule: "F_eff: every program (control flow with effects at every position and effectful yield expressions) up to MaxSize x tapes x EVERY truncation as a separate run; F_expr: every shape of yielded expression (literal / variable / effectful call, plain, negated, parenthesised, argument of a one-argument call) at every position of a small control alphabet, also as for-post; the observation is the interleaving of recorder entries with the consumer's calls (none at construction, exactly those between two yields per MoveNext, none after stop)"})
+}
+
+func c02Box(c *vf.Check) {
+	runFam(c, famSpec{id: "C02", fam: "box", name: "F_box", sizeQ: "3", sizeT: "4", tapeQ: "2", tapeT: "3", callsQ: 5, callsT: 6,
+		keys: fullKeys, opts: srcOpts{Box: true}, rule: ""})
 }
 
 // C03: local state and lexical scoping survive suspension.
